@@ -24,6 +24,13 @@ ASSUMPTIONS = [
     'and the declared (interface -> readable properties) table is checked against what the objects return; '
     'for an object of a derived class the declared interfaces are those of the class and of all its bases '
     '(kinds 3-6; the classes of the hierarchy are created anew for every case)',
+    'kinds 7-11: class hierarchies in which ONE INTERFACE NAME is declared on more than one class (a subclass '
+    're-declares / extends an interface of its base under the same name, adding a property to a base revision that '
+    'has none, or to one that has some; a further subclass declaring nothing): getInterfaces() then yields two '
+    'interface objects of one name, and the property text is read per interface NAME: the object is reported with '
+    'each of its interface names once, carrying all readable properties the object has under that name (what '
+    'Properties.GetAll / getAllProperties(name) gives, property C17); InterfacesRemoved is compared as the MULTISET of '
+    'interface names, except that a name declared on two classes of a hierarchy counts once (whether it is listed once or twice is not looked at)',
     'org.freedesktop.DBus.Peer.Ping is answered at any path by design (connection-level); it is not queried here',
     'ill-formed object paths (malformed stream: objects whose _objectPath was overwritten) are compared with the '
     'model only; the theorems and the oracle speak about histories over well-formed paths',
@@ -51,11 +58,31 @@ KINDS = [
     [('org.ex.Q', {'qx': 5}), ('org.ex.P', {'pb': 'b'}), ('org.freedesktop.DBus.Properties', {})],
     [('org.ex.R', {}), ('org.ex.Q', {'qx': 5}), ('org.ex.P', {'pb': 'b'}), ('org.freedesktop.DBus.Properties', {})],
     [('org.ex.S', {'sv': 's'}), ('org.ex.P', {'pb': 'b'}), ('org.freedesktop.DBus.Properties', {})],
+    # kinds 7..11: hierarchies in which one interface NAME is declared on two classes (REDECL_KINDS): the entry lists
+    # getInterfaces() (one element per declaring class, most derived first) with what getAllProperties(name) gives,
+    # which goes by name - hence the same dictionary at both occurrences.
+    #  7: base class, first revision of org.ex.T: methods only          8: derived, re-declares org.ex.T adding 'tv'
+    #  9: base class, org.ex.U with 'ub'                               10: derived, re-declares org.ex.U adding 'ux'
+    # 11: derived from 8, declares no interface of its own
+    [('org.ex.T', {}), ('org.freedesktop.DBus.Properties', {})],
+    [('org.ex.T', {'tv': 3}), ('org.ex.T', {'tv': 3}), ('org.freedesktop.DBus.Properties', {})],
+    [('org.ex.U', {'ub': 'u'}), ('org.freedesktop.DBus.Properties', {})],
+    [('org.ex.U', {'ub': 'u', 'ux': 4}), ('org.ex.U', {'ub': 'u', 'ux': 4}), ('org.freedesktop.DBus.Properties', {})],
+    [('org.ex.T', {'tv': 3}), ('org.ex.T', {'tv': 3}), ('org.freedesktop.DBus.Properties', {})],
 ]
 NKINDS_MAIN = 2          # kinds used by the exhaustive stream; kind 2 (same class as 0, other values) appears in the literal streams
 HIER_FIRST = 3           # kinds >= HIER_FIRST: the class hierarchy; its classes are made anew for every case, so
                          # that the history itself decides which class of the hierarchy is used first
 HIER_KINDS = [3, 4, 5, 6]
+REDECL_KINDS = [7, 8, 9, 10, 11]
+REDECL_NAMES = ('org.ex.T', 'org.ex.U')
+
+
+def names_canon(names):
+    """interface names of an InterfacesRemoved signal: a multiset, except that a name declared on two classes of a
+    hierarchy (REDECL_NAMES) counts once - whether such a name is listed once or twice the property does not say"""
+    names = sorted(names)
+    return [n for i, n in enumerate(names) if not (n in REDECL_NAMES and i > 0 and names[i - 1] == n)]
 
 
 def kinds_sexp():
@@ -115,8 +142,51 @@ def env():
     ifr = DBusInterface('org.ex.R', Signal('Rang', 's'))
     ifs_ = DBusInterface('org.ex.S', Property('sv', 's'))
 
+    # one interface name declared on two classes of a hierarchy: a first revision and an extended one
+    ift0 = DBusInterface('org.ex.T', Method('Who', returns='s'), noRegister=True)
+    ift1 = DBusInterface('org.ex.T', Method('Who', returns='s'), Method('T1', returns='s'), Property('tv', 'i'),
+                         noRegister=True)
+    ifu0 = DBusInterface('org.ex.U', Method('Who', returns='s'), Property('ub', 's'), noRegister=True)
+    ifu1 = DBusInterface('org.ex.U', Method('Who', returns='s'), Property('ub', 's'), Property('ux', 'i'),
+                         noRegister=True)
+
     def hier():
-        """a new copy of the class hierarchy: kind -> class"""
+        """a new copy of the class hierarchies: kind -> class"""
+        class Plain(objects.DBusObject):
+            def __init__(self, path, kind):
+                objects.DBusObject.__init__(self, path)
+                self.kind = kind
+                if kind in (8, 11):
+                    self.tv = 3
+                if kind in (9, 10):
+                    self.ub = 'u'
+                if kind == 10:
+                    self.ux = 4
+
+            def dbus_Who(self):
+                return '%d:%s' % (self.kind, self.getObjectPath())
+
+        class TBase(Plain):
+            dbusInterfaces = [ift0]
+
+        class TExt(TBase):
+            dbusInterfaces = [ift1]
+            tv = objects.DBusProperty('tv', 'org.ex.T')
+
+            def dbus_T1(self):
+                return 't'
+
+        class TExt2(TExt):
+            pass
+
+        class UBase(Plain):
+            dbusInterfaces = [ifu0]
+            ub = objects.DBusProperty('ub', 'org.ex.U')
+
+        class UExt(UBase):
+            dbusInterfaces = [ifu1]
+            ux = objects.DBusProperty('ux', 'org.ex.U')
+
         class Base(objects.DBusObject):
             dbusInterfaces = [ifp]
             pb = objects.DBusProperty('pb')
@@ -147,7 +217,7 @@ def env():
             dbusInterfaces = [ifs_]
             sv = objects.DBusProperty('sv')
 
-        return {3: Base, 4: Ext, 5: Ext2, 6: Sib}
+        return {3: Base, 4: Ext, 5: Ext2, 6: Sib, 7: TBase, 8: TExt, 9: UBase, 10: UExt, 11: TExt2}
 
     def make(kind, path, world=None):
         ok = True
@@ -241,7 +311,7 @@ def obs_signal(raw, E):
         if m.member == 'InterfacesAdded' and m.signature == 'sa{sa{sv}}':
             return [0, m.path, m.body[0], canon_ifaces(m.body[1])]
         if m.member == 'InterfacesRemoved' and m.signature == 'sas':
-            return [1, m.path, m.body[0], sorted(str(x) for x in m.body[1])]
+            return [1, m.path, m.body[0], names_canon(str(x) for x in m.body[1])]
     return ['other', type(m).__name__, getattr(m, 'member', None)]
 
 
@@ -331,7 +401,7 @@ def m_signal(o):
         return o[1], []
     if o[1] == 0:
         return None, [[0, s(o[2]), s(o[3]), m_ifaces(o[4])]]
-    return None, [[1, s(o[2]), s(o[3]), sorted(s(x) for x in o[4])]]
+    return None, [[1, s(o[2]), s(o[3]), names_canon(s(x) for x in o[4])]]
 
 
 def m_reply(o):
@@ -385,7 +455,7 @@ def oracle_step(case, idx, impl, spec_announce, res):
     if kind == 0:
         want = [0, path, path, declared(ident)]
     else:
-        want = [1, path, path, sorted(n for n, _ in KINDS[ident])]
+        want = [1, path, path, names_canon(n for n, _ in KINDS[ident])]
     if sigs != [want]:
         res.violate(case, 'step %d: expected exactly one %s naming %s and its interfaces, got %r (exception %r)'
                     % (idx, 'InterfacesAdded' if kind == 0 else 'InterfacesRemoved', path, sigs, exc),
@@ -568,7 +638,8 @@ def gen_hierarchy(ctx, count):
     """Objects whose classes form one hierarchy (base, derived, derived twice, sibling), the classes made anew
     for every case: (1) every order in which the four classes are first used (4! histories exporting one object
     of each, then unexporting them), (2) every pair of exports of two kinds of the hierarchy at two paths, each
-    followed by both unexports, (3) random histories mixing them with the unrelated classes."""
+    followed by both unexports, (3) random histories mixing them with the unrelated classes, (4) hierarchies in
+    which a subclass re-declares an interface of its base under the same name."""
     rng = ctx.rng
     for perm in itertools.permutations(HIER_KINDS):
         h = [[0, p, k] for p, k in zip(HIER_PATHS, perm)]
@@ -576,6 +647,13 @@ def gen_hierarchy(ctx, count):
     for k1 in HIER_KINDS:
         for k2 in HIER_KINDS:
             yield [[[0, '/a', k1], [0, '/a/b', k2], [1, '/a'], [1, '/a/b']], QPATHS, 1]
+    # (4) one interface name declared on two classes of a hierarchy (REDECL_KINDS): every pair of kinds at parent and
+    # child path, in both export orders (which class is used first), and each kind alone beneath an unrelated parent
+    for k1 in REDECL_KINDS:
+        for k2 in REDECL_KINDS:
+            yield [[[0, '/a', k1], [0, '/a/b', k2], [1, '/a'], [1, '/a/b']], QPATHS, 1]
+            yield [[[0, '/a/b', k2], [0, '/a', k1], [1, '/a/b'], [1, '/a']], QPATHS, 1]
+        yield [[[0, '/', 0], [0, '/a/b/c', k1], [1, '/a/b/c']], QPATHS, 1]
     for _ in range(count):
         n = rng.randint(2, 7)
         h = []
@@ -583,7 +661,7 @@ def gen_hierarchy(ctx, count):
         for _ in range(n):
             r = rng.random()
             if r < 0.6 or not st:
-                k = rng.choice(HIER_KINDS) if rng.random() < 0.8 else rng.randrange(HIER_FIRST)
+                k = rng.choice(HIER_KINDS + REDECL_KINDS) if rng.random() < 0.8 else rng.randrange(HIER_FIRST)
                 ev = [0, rng.choice(UNIVERSE), k]
             else:
                 ev = [1, rng.choice(sorted(st))]
@@ -617,9 +695,14 @@ def run(ctx, res):
                 'from it adding an interface, one derived from that, a sibling; kinds %r, the classes made anew for every '
                 'case): every order of first use of the four classes, every pair of kinds at parent and child path, '
                 'random histories mixing them with unrelated classes, queried after every step - a derived class '
-                'exports its own interfaces and those of its bases whichever class was used first. '
+                'exports its own interfaces and those of its bases whichever class was used first; (f) hierarchies in which '
+                'one interface name is declared on two classes (kinds %r: a subclass re-declares an interface of its base '
+                'under the same name and adds a property, the base revision having none or some; a further subclass '
+                'declaring nothing): every pair of these kinds at parent and child path in both export orders, each alone '
+                'beneath an unrelated root, and the random histories of (c) and (e) - each interface name is reported once '
+                'with all readable properties the object has under that name. '
                 'A case is non-trivial if it exports something; distinct by hash'
-                % (depth, UNIVERSE, NKINDS_MAIN, len(QPATHS), QPATHS, lit, ctx.n(8, 12), len(KINDS), HIER_KINDS))
+                % (depth, UNIVERSE, NKINDS_MAIN, len(QPATHS), QPATHS, lit, ctx.n(8, 12), len(KINDS), HIER_KINDS, REDECL_KINDS))
     evaluate(ctx, gen_exhaustive(depth, NKINDS_MAIN), res)
     res.extra['exhaustive_stream'] = gen_exhaustive.stats
     evaluate(ctx, gen_literal(lit, NKINDS_MAIN), res)
